@@ -378,5 +378,5 @@ def run(env, rep):
     from ..framework import PrefixReport, wants
     if wants(rep, "C13.R4"):
         from . import C12, C04
-        C12.run(env, PrefixReport(rep, "C12.", "C13.R4.", only=("C12.R1", "C12.R2")))
+        C12.run(env, PrefixReport(rep, "C12.", "C13.R4.", only=("C12.R1", "C12.R2", "C12.R4")))
         C04.run(env, PrefixReport(rep, "C04.", "C13.R4.", only=("C04.R3",)))
